@@ -223,21 +223,25 @@ func exprFeatures(b *ast.Body, m map[string]bool) {
 func TestC09_Format(t *testing.T) {
 	hx.Run(t, "C09", "Format", 12000,
 		"error-free configuration = body tree with full G-EXPR/G-TMPL attribute values rendered by G-LAYOUT at its wildest setting; oracle: same (type,bytes) token sequence, gaps are spaces, re-parses to the same AST modulo ranges with equal attribute values, idempotent; non-trivial = >=10 tokens, >=2 lines and output differs from input; distinct by tree dump + layout hash",
-		func(c *hx.Case) {
-			t := c.T
-			sc := gen.DrawScope(t, gen.ScopeOpts{Nulls: 12})
-			tree := drawConfig(t, sc, 2, gen.ExprOpts{IllTyped: 10, HostileLits: true, Budget: 14, MaxDepth: 3})
-			bo := drawBodyOpts(t)
-			bo.Wild = 2
-			src, r := render.File(tree, rchooser{t}, bo)
-			c.Set("source", src)
-			kinds := map[string]bool{}
-			exprFeatures(tree, kinds)
-			featClasses(c, "node_", kinds)
-			featClasses(c, "layout_", r.Feat)
-			checkFormat(c, []byte(src), evalCtx(sc))
-		})
+		caseC09Format)
 }
+
+func caseC09Format(c *hx.Case) {
+	t := c.T
+	sc := gen.DrawScope(t, gen.ScopeOpts{Nulls: 12})
+	tree := drawConfig(t, sc, 2, gen.ExprOpts{IllTyped: 10, HostileLits: true, Budget: 14, MaxDepth: 3})
+	bo := drawBodyOpts(t)
+	bo.Wild = 2
+	src, r := render.File(tree, rchooser{t}, bo)
+	c.Set("source", src)
+	kinds := map[string]bool{}
+	exprFeatures(tree, kinds)
+	featClasses(c, "node_", kinds)
+	featClasses(c, "layout_", r.Feat)
+	checkFormat(c, []byte(src), evalCtx(sc))
+}
+
+func FuzzC09_Format(f *testing.F) { hx.Fuzz(f, "C09", "Format", caseC09Format) }
 
 // checkFormat is the C09 oracle for one error-free source text.
 func checkFormat(c *hx.Case, src []byte, ctx *hcl.EvalContext) {
